@@ -148,9 +148,38 @@ func runC15(c *engine.Ctx) {
 	// ---- R3 transport fails closed ----
 	c.Rule("R3", "httpPlugin.do returns nil only as json.Unmarshal's result on a path with StatusCode==200; httpPlugin.Handle returns a non-nil error whenever do did")
 	n := 0
-	if do := fn(c, "pkg/plugin/server.httpPlugin.do"); do != nil {
+	// the transport step is the httpPlugin method that performs http.Client.Do (found by what it does: "do" on the
+	// confirmed tree)
+	var do *ssa.Function
+	if hp := c.P.Named("pkg/plugin/server", "httpPlugin"); hp != nil {
+		var hit []*ssa.Function
+		for _, f := range c.P.RepoFuncs() {
+			if f.Parent() != nil || f.Signature.Recv() == nil || engine.NamedOf(f.Signature.Recv().Type()) != hp {
+				continue
+			}
+			found := false
+			engine.ForEachInstr(f, func(in ssa.Instruction) {
+				if call, ok := in.(ssa.CallInstruction); ok {
+					if o := engine.CalleeObj(call); o != nil && o.Pkg() != nil && o.Pkg().Path() == "net/http" && o.Name() == "Do" {
+						found = true
+					}
+				}
+			})
+			if found {
+				hit = append(hit, f)
+			}
+		}
+		if len(hit) == 1 {
+			do = hit[0]
+		} else {
+			c.Missing("pkg/plugin/server.httpPlugin.<transport>", "expected exactly one httpPlugin method performing http.Client.Do, found %d", len(hit))
+		}
+	} else {
+		c.Missing("pkg/plugin/server.httpPlugin", "type not found")
+	}
+	if do != nil {
 		n++
-		c.AllPaths("pkg/plugin/server.httpPlugin.do", engine.PathCheck{Fn: do, Sink: engine.IsReturn, Pred: func(st *engine.PathState) string {
+		c.AllPaths(c.P.FuncName(do), engine.PathCheck{Fn: do, Sink: engine.IsReturn, Pred: func(st *engine.PathState) string {
 			r := st.Sink.(*ssa.Return)
 			v := st.Resolve(r.Results[len(r.Results)-1])
 			if nonNilOnPath(st, v) {
@@ -182,8 +211,8 @@ func runC15(c *engine.Ctx) {
 			return "httpPlugin.do may return nil (" + engine.Describe(v) + ") without a decoded 200 answer: an unreachable or failing plugin would allow the operation"
 		}}, "nil only from json.Unmarshal behind StatusCode==200; every earlier failure returns its error")
 	}
-	if h := fn(c, "pkg/plugin/server.httpPlugin.Handle"); h != nil {
-		doObj := method(c, "pkg/plugin/server", "httpPlugin", "do")
+	if h := fn(c, "pkg/plugin/server.httpPlugin.Handle"); h != nil && do != nil && h != do {
+		doObj, _ := do.Object().(*types.Func)
 		n++
 		c.AllPaths("pkg/plugin/server.httpPlugin.Handle", engine.PathCheck{Fn: h, Sink: engine.IsReturn, Pred: func(st *engine.PathState) string {
 			r := st.Sink.(*ssa.Return)
@@ -199,6 +228,9 @@ func runC15(c *engine.Ctx) {
 			}
 			return ""
 		}}, "transport error propagated")
+	}
+	if do != nil && do.Name() == "Handle" {
+		n++ // transport inlined into Handle: the first obligation covers both
 	}
 	c.Floor(n, 2)
 
@@ -305,7 +337,19 @@ func runC15(c *engine.Ctx) {
 				continue
 			}
 			closes := engine.CallsTo(f, pxyClose)
-			for _, nc := range engine.CallsToDeep(f, plugClose) {
+			// the notification may be sent by f itself or by a same-package helper f calls (once per closed proxy)
+			type site struct {
+				host *ssa.Function
+				nc   ssa.CallInstruction
+			}
+			var sites []site
+			for _, host := range engine.HostsOfDeep(f, plugClose) {
+				for _, nc := range engine.CallsToDeep(host, plugClose) {
+					sites = append(sites, site{host, nc})
+				}
+			}
+			for _, sx := range sites {
+				nc, host := sx.nc, sx.host
 				n++
 				arg := engine.CallArgs(nc)[1]
 				// resolve through the goroutine closure's free variable
@@ -344,19 +388,42 @@ func runC15(c *engine.Ctx) {
 				}
 				okFresh := true
 				why := ""
-				for _, cl := range closes {
-					h := engine.LoopHeader(cl.Block())
-					if h != nil && !h.Dominates(al.Block()) {
-						okFresh = false
-						why = "the content is allocated outside the loop that closes the proxies: all notifications share one value that the loop keeps overwriting"
+				if host == f {
+					for _, cl := range closes {
+						h := engine.LoopHeader(cl.Block())
+						if h != nil && !h.Dominates(al.Block()) {
+							okFresh = false
+							why = "the content is allocated outside the loop that closes the proxies: all notifications share one value that the loop keeps overwriting"
+						}
 					}
-				}
+				} else if al.Parent() != host {
+					okFresh, why = false, "the content is not allocated by the helper that sends it"
+				} // else: allocated by the helper, hence once per call, i.e. per closed proxy
 				// the name stored into the content derives from GetName of a closed proxy
 				nameOK := false
 				for _, sv := range nameStores(al, nameF) {
 					src := engine.Provenance(sv, engine.ProvOpts{})
 					if src.HasCall(getName) {
 						nameOK = true
+					}
+					if host != f {
+						// the helper's parameter stands for the caller's argument
+						if hobj, _ := host.Object().(*types.Func); hobj != nil {
+							for _, hc := range engine.CallsTo(f, hobj) {
+								ok := false
+								for i, pr := range host.Params {
+									if src.Params[pr] && i < len(hc.Common().Args) {
+										if engine.Provenance(hc.Common().Args[i], engine.ProvOpts{}).HasCall(getName) {
+											ok = true
+										}
+									}
+								}
+								nameOK = ok
+								if !ok {
+									break
+								}
+							}
+						}
 					}
 				}
 				if okFresh && !nameOK {
@@ -371,6 +438,10 @@ func runC15(c *engine.Ctx) {
 		}
 	}
 	c.Floor(n, 2)
+
+	// ---- R6 the Ping gate really gates (shared with C04.R4 / C14.R2): a heartbeat refused by the plugin chain must not
+	// refresh the session's liveness ----
+	checkHeartbeatGate(c, "R6")
 }
 
 // nameStores returns the values stored into (nested) field fv of the struct allocated by al.
